@@ -1,8 +1,10 @@
 (* drv_C18.ml — driver: runs the extracted C18 model (quaternion utilities) on
    the case file given on stdin.  Same operands as cpp/h_C18.cpp.
-   The eigen-solver oracle of the model (mean_quaternion) is realised here by a
-   cyclic Jacobi iteration on the symmetric 4 x 4 matrix; its contract (unit
-   eigenvector of the largest eigenvalue) is checked by the plug-in on every case. *)
+   The eigen-solver oracle of the model (mean_quaternion: SelfAdjointEigenSolver, first
+   index attaining the largest eigenvalue) is realised here by a cyclic Jacobi iteration
+   on the symmetric 4 x 4 matrix, first index attaining the largest diagonal entry; its
+   contract (unit eigenvector of the largest eigenvalue) is checked by the plug-in on
+   every case.  On the zero matrix both give (1, 0, 0, 0). *)
 let quat_of_col (m : float array array) (j : int) : quat =
   { qw = ob m.(0).(j); qx = ob m.(1).(j); qy = ob m.(2).(j); qz = ob m.(3).(j) }
 let vec_of_col (m : float array array) (j : int) : vec3 = { vx = ob m.(0).(j); vy = ob m.(1).(j); vz = ob m.(2).(j) }
